@@ -113,9 +113,14 @@ package jsonrpc2
 // duplicate id, refused because of shutdown): processResult gives the slot back exactly once for each of them, so an
 // uncounted message would let its processResult take the slot of a request that is still being handled (Close would
 // then return, and the transport be closed, while a handler is running).
-//@ func (*Connection).acceptRequest$1 [C02, C05]
+//@ func (*Connection).acceptRequest$1 [C02, C05, C04]
 //@   assume s.reading
 //@   ensures @every-accepted-message-is-counted s.incoming == old(s.incoming) + 1
+// A call that reuses the id of a request still in flight is refused - and stripped of that id first: processResult
+// strikes the request it finishes off the index by id, so a refused duplicate that kept the id would strike off the
+// original, which could then neither be cancelled by id nor be told apart from the duplicate's error answer (C04).
+//@   ensures @a-refused-duplicate-gives-up-the-id-it-collides-with old(req.ID.value != nil) && old(inDom(s.incomingByID, req.ID)) ==> req.ID.value == nil && err != nil
+//@   ensures @the-original-stays-indexed forall id ID :: {inDom(s.incomingByID, id)} old(id in s.incomingByID) ==> id in s.incomingByID && rawGet(s.incomingByID, id) == old(rawGet(s.incomingByID, id))
 //@ func (*Connection).acceptRequest$2 [C02]
 //@   assume s.reading
 
